@@ -97,7 +97,10 @@ Fresh(r) ==
     /\ est' = FALSE /\ known' = FALSE /\ outst' = {} /\ hi' = [l \in Links |-> 0] /\ recent' = {}
     /\ routed' = 0 /\ dups' = 0
     /\ conn' = [l \in Links |-> -1] /\ heard' = [l \in Links |-> -1] /\ kaT' = [l \in Links |-> -1]
-    /\ downLo' = [l \in Links |-> -1] /\ everUp' = [l \in Links |-> FALSE] /\ repaired' = [l \in Links |-> -1]
+    /\ downLo' = [l \in Links |-> -1] /\ everUp' = [l \in Links |-> FALSE]
+    \* an uplink whose path delivers from the start owes its registration like one whose path has just been repaired
+    /\ repaired' = [l \in Links |-> IF l <= r.n /\ l \in (IF "listed" \in DOMAIN r THEN {r.listed[j] : j \in 1..Len(r.listed)} ELSE 1..r.n)
+                                        /\ r.up[l] THEN 0 ELSE -1]
     /\ mode' = r.mode /\ modeT' = 0 /\ ackT' = -1 /\ kw' = [l \in Links |-> -1] /\ kwT' = [l \in Links |-> -1]
     /\ reg1L' = 0 /\ reg1T' = -1 /\ ansT' = -1 /\ seen2' = {} /\ amn' = [l \in Links |-> -1]
     /\ failing' = [l \in Links |-> FALSE]
@@ -201,7 +204,8 @@ Conn1(r, l)  == IF Torn(r, l) THEN (IF Got3(r, l) THEN r.t ELSE -1)
                 ELSE IF Got3(r, l) /\ conn[l] = -1 THEN r.t ELSE conn[l]
 Heard1(r, l) == IF Hears(r, l) THEN r.t ELSE IF Torn(r, l) THEN -1 ELSE heard[l]
 Rep1(r, l)   == IF Conn1(r, l) # -1 THEN -1
-                ELSE IF r.ev = "SetPath" /\ r.l = l /\ r.p = "up" THEN r.t
+                ELSE IF r.ev = "SetPath" /\ r.l = l THEN (IF r.p = "up" THEN r.t ELSE -1)
+                ELSE IF Applying(r) /\ l \in pendL \ listed THEN r.t        \* an uplink a reload has just added
                 ELSE repaired[l]
 KaT1(r, l)   == IF Kas(r, l) # <<>> THEN r.t
                 ELSE IF Torn(r, l) \/ (Got3(r, l) /\ conn[l] = -1) THEN Conn1(r, l) ELSE kaT[l]
